@@ -490,6 +490,20 @@ fn plain_run(prog: &Program, cycles: u32) -> Result<(String, String, Runtime), S
     Ok((initial, state_text(rt.storage(), false), rt))
 }
 
+/// Undebugged reference for an explicit user write: the value is stored right before cycle
+/// `at_cycle` starts (never, if the run ends first) — what `execute_cycle` does with a queued write.
+fn plain_run_with_write(prog: &Program, cycles: u32, at_cycle: u32, name: &str, value: i64) -> Result<String, String> {
+    let mut rt = build(prog)?;
+    for c in 0..cycles {
+        rt.advance_time(RtDuration::from_millis(10));
+        if c == at_cycle {
+            rt.storage_mut().set_global(name, trust_runtime::value::Value::LInt(value));
+        }
+        rt.execute_cycle().map_err(|e| format!("plain run with write: {e:?}"))?;
+    }
+    Ok(state_text(rt.storage(), false))
+}
+
 // ------------------------------------------------------------------------------------------------
 // scripted run
 // ------------------------------------------------------------------------------------------------
@@ -626,7 +640,12 @@ fn scripted_run(
         }
     }
     let mut sc = Script { trace, cursor: 0, stops: 0, last: None };
-    let max_stops = 25 + rng.below(30) as usize;
+    let mut max_stops = 25 + rng.below(30) as usize;
+    // an explicit user write (the property's exception): queued at one stop, after which the run is
+    // let go; the final state must be the undebugged one with the value stored at the next cycle
+    // boundary
+    let write_at: Option<usize> = if rng.chance(1, 3) { Some(1 + rng.below(12) as usize) } else { None };
+    let mut written: Option<(u32, &'static str, i64)> = None;
     let mut hung = false;
     // `pending` = what we are waiting for was already announced by an op line
     out.line("go");
@@ -664,6 +683,19 @@ fn scripted_run(
                 }
                 let cur = stop.thread_id;
                 // commands at this stop
+                if written.is_none() && write_at == Some(sc.stops) {
+                    if let Some(snap) = s.control.snapshot() {
+                        let cycle = (snap.now.as_nanos() / 10_000_000) as u32 - 1;
+                        let name = if rng.bool() { "x" } else { "y" };
+                        let value = 1000 + rng.below(100_000) as i64;
+                        s.control
+                            .enqueue_global_write(name, trust_runtime::value::Value::LInt(value));
+                        written = Some((cycle + 1, name, value));
+                        out.line(format!("# user write {name} := {value}, queued during cycle {cycle}"));
+                        out.count("rt_user_write");
+                        max_stops = sc.stops; // let the run go
+                    }
+                }
                 if sc.stops >= max_stops {
                     s.control.clear_breakpoints();
                     out.line("clearbp");
@@ -832,6 +864,11 @@ fn scripted_run(
     match s.join() {
         Some((rt, errors)) => {
             let fin = state_text(rt.storage(), false);
+            let reference = match written {
+                Some((at, name, value)) => plain_run_with_write(prog, cycles, at, name, value)?,
+                None => plain_final.to_string(),
+            };
+            let plain_final = reference.as_str();
             out.line("final");
             if !errors.is_empty() {
                 out.line(format!("impl cycle-errors {errors:?}"));
